@@ -36,6 +36,9 @@ def _texts(tier):
     out = [(s["name"], s["text"]) for s in gendrive.SKELETONS]
     for i, t in enumerate(corpus.test_strings("test_stochastic.py")):
         out.append((f"test_stochastic[{i}]", t))
+    # molecules that need not be generable: descriptors of the same symbol with different bond orders, ids
+    out.append(("mixed-bond-orders", "{[] [$]CC[$], [$|2|]CC(=[$|0.25|])[$]; [$|2|]=O, [$|6|]=C, [$][H] []}"))
+    out.append(("ids-and-orders", "{[] [<1]CC[>1], [<1|2|]CC(=[<2|0.5|])[>1]; [>2|3|]=O, [>1][H], [<1]F []}"))
     if tier == "thorough":
         for i, t in enumerate(corpus.test_strings("test_molecule.py")):
             out.append((f"test_molecule[{i}]", t))
@@ -208,6 +211,19 @@ def run_case(case, g, tier, res):
             c.prove(False, "graph construction succeeds", detail(f"gen_reaction_graph raised {e}"))
             return
         check_graph(P, g, mol, G)
+        # building the graph is a pure function of the molecule: weights untouched, a second graph is the same
+        from .C01 import tree, tree_eq
+        for role, bd in gen.all_descriptors(mol):
+            if role in roles:
+                want = roles[role]
+                if isinstance(want, list):
+                    ok = bd.transitions is not None and len(bd.transitions) == len(want) and And(*[x == y for x, y in zip(list(bd.transitions), want)])
+                else:
+                    ok = bd.weight == want
+                c.prove(ok, "graph construction leaves the molecule unchanged", detail("gen_reaction_graph changed a weight of the molecule"))
+        G2 = mol.gen_reaction_graph()
+        P2 = _SymP(c, lambda label: detail("second call: " + label))
+        check_graph(P2, g, mol, G2)
         return len(G)
 
     explore_case(res, h, tier, on_path=on_path)
@@ -222,6 +238,18 @@ def replay(rp, gb):
     except RuntimeError as e:
         return rp["label"].startswith("gen_reaction_graph raised") or rp["label"] == "graph construction succeeds", f"raised {e}"
     check_graph(P, gb, mol, G)
+    before = str(mol)
+    try:
+        G2 = mol.gen_reaction_graph()
+        P2 = _ConP()
+        check_graph(P2, gb, mol, G2)
+        P.failed += ["second call: " + x for x in P2.failed]
+        mol2 = gb.Molecule(rp["text"])
+        gendrive.apply_role_values(gen, mol2, rp["weights"])
+        if str(mol) != str(mol2):
+            P.failed.append("gen_reaction_graph changed a weight of the molecule")
+    except RuntimeError as e:
+        P.failed.append("gen_reaction_graph changed a weight of the molecule")
     try:
         from gbigsmiles.core import reaction_graph_to_dot_string
 
